@@ -7,6 +7,7 @@ from props import c01
 
 LEVEL = 'model_checking'
 MOD, CFG = 'VTLViral_Trace', 'VTLViral_Trace.cfg'
+VAL = ('hier', 'dpcheck', 'check')
 
 
 def rules_key(u):
@@ -63,9 +64,9 @@ def main(chk):
     ru = viral.random_viral_units(rnd, n)
     side = report.Check(chk.pid, chk.tier, chk.seed, LEVEL)
     plain = [{'id': u['id'], 'env': {k: strip(d) for k, d in u['env'].items()}, 'term': u['term'], 'cc': True} for u in ru]
-    bu, _, bv = b1.validate(side, [u for u in plain if u['term']['k'] != 'hier'], lambda u: '', pack=20)
+    bu, _, bv = b1.validate(side, [u for u in plain if u['term']['k'] not in VAL], lambda u: '', pack=20)
     good = {u['id'] for u, v in zip(bu, bv) if v['ok']}
-    hu, _, hv = b1.validate(side, [dict(u, nopack=True) for u in plain if u['term']['k'] == 'hier'], lambda u: '', pack=1, module='VTLValidation_Trace', cfg='VTLValidation_Trace.cfg')
+    hu, _, hv = b1.validate(side, [dict(u, nopack=True) for u in plain if u['term']['k'] in VAL], lambda u: '', pack=1, module='VTLValidation_Trace', cfg='VTLValidation_Trace.cfg')
     good |= {u['id'] for u, v in zip(hu, hv) if v['ok']}
     ru = [u for u in ru if u['id'] in good]
     lu, lo, _ = b1.validate(chk, ru, keyfn, pack=1, module=MOD, cfg=CFG)
@@ -114,7 +115,7 @@ def main(chk):
     chk.assumptions += ['the engine\'s propagation model is the reference (no VTL 2.1 text exists): pair form for dataset-dataset and joins folded in operand order, group form for aggregations, '
                         'enumerated rules per datapoint and aggregate rules over the whole operand for row-preserving operators; min / max skip nulls in pairs, sum / avg do not',
                         'an enumerated rule folded over a group of more than two values may depend on the order of the fold; where it does (or the group has more than 5 datapoints) the value is '
-                        'not judged, only its independence of the input order; dataset-level analytic invocations take the rule over the whole partition; a computed item of hierarchy takes the rule over its children; validations (check, check_datapoint, check_hierarchy) with viral attributes are not modelled']
+                        'not judged, only its independence of the input order; dataset-level analytic invocations take the rule over the whole partition; a computed item of hierarchy takes the rule over its children; check_datapoint / check_hierarchy apply the rule row-wise over the reported datapoints (an aggregate rule over ALL of them), check copies the attributes of the validated operand']
 
 
 def referenced(t):
